@@ -178,6 +178,48 @@ pub fn explore(what: What, plan: &Plan) {
 }
 
 #[allow(clippy::too_many_arguments)]
+/// the documented comment spellings with one very long comment (sizes around 2^16) on a few recipes
+pub fn long_comment_spellings(what: What) {
+    for cfg in [Config { extended: false }, Config { extended: true }] {
+        let parser = Arc::new(parser_for(cfg));
+        sweep(&format!("{}: one block comment / comment-only line of 65535, 65536, 70001 bytes at every gap and block start of 8 recipes", if cfg.extended { "extended" } else { "canonical" }), 1, |_| json!({"kind": "long comment"}), move |_, local| {
+            let mut out = Vec::new();
+            let comps = l1_components(cfg);
+            let blocks = l3_alphabet(cfg);
+            let mut recipes: Vec<Recipe> = comps.iter().step_by(comps.len() / 5 + 1).map(|c| l1_recipe(c, 1)).collect();
+            recipes.extend([vec![0usize, 8, 3], vec![5, 8, 9, 10], vec![6, 10, 0, 9]].iter().filter_map(|s| l3_recipe(&blocks, s)));
+            for size in [65_535usize, 65_536, 70_001] {
+                let block_comment = format!("[- {} -]", "é".repeat(size / 2));
+                let comment_line = format!("-- {}\n", "c".repeat(size));
+                for r in &recipes {
+                    let Ok(exp) = expected(r, cfg) else { continue };
+                    let mut ch = Chooser::new(Mode::Prefix(vec![]));
+                    let p = print(r, cfg, &mut ch);
+                    let mut points: Vec<(usize, &str)> = p.gaps.iter().chain(&p.value_gaps).map(|&g| (g, block_comment.as_str())).collect();
+                    points.extend(p.block_starts.iter().map(|&b| (b, comment_line.as_str())));
+                    for (pos, ins) in points {
+                        let mut q = print(r, cfg, &mut Chooser::new(Mode::Prefix(vec![])));
+                        q.src.insert_str(pos, ins);
+                        local.evaluations += 1;
+                        local.nontrivial += 1;
+                        if let Some(mut v) = check_source(&exp, &q, cfg, &parser, what) {
+                            // keep the report readable: the source is 64 KiB long
+                            v.detail = format!("{:?} with a {size}-byte comment inserted at offset {pos}: {}", p.src, v.detail.chars().rev().take(400).collect::<String>().chars().rev().collect::<String>());
+                            v.case = json!({"kind": "long comment", "extended": cfg.extended});
+                            out.push(v);
+                            return out;
+                        }
+                    }
+                }
+            }
+            out
+        });
+        if ctx().has_violations() {
+            return;
+        }
+    }
+}
+
 fn run_recipe(
     r: &Recipe,
     cfg: Config,
@@ -224,6 +266,12 @@ fn run_recipe(
 /// replay of a recorded source: the model that produced it is not stored, so
 /// the replay re-parses the source and reports its diagnostics and recipe
 pub fn replay(case: &J, what: What) -> Vec<Violation> {
+    if case["kind"] == "long comment" {
+        // re-run that part (the 64 KiB sources are not stored in the replay file)
+        let before = ctx().has_violations();
+        long_comment_spellings(what);
+        return if !before && ctx().has_violations() { vec![Violation::new("the long-comment spellings reproduce a difference", "see the evidence of this replay".to_string(), case.clone())] } else { vec![] };
+    }
     let cfg = Config { extended: case["extended"].as_bool().unwrap_or(true) };
     if case["kind"] == "model" {
         return vec![];
@@ -294,6 +342,10 @@ pub fn run(tier: Tier) {
         return;
     }
     text_mode_verbatim();
+    if c.has_violations() {
+        return;
+    }
+    long_comment_spellings(What::Recipe);
     c.assume("the reference semantics covers the canonical parser (no extensions, no units) and the extended parser (all extensions, bundled units); model recipes the semantics classifies as not well-formed (dangling reference, construct that is documented to warn, ...) are skipped and counted");
 }
 
